@@ -215,8 +215,69 @@ def _elim_returns(stmts, ret):
           body=body or [ast.Pass()], handlers=hs, orelse=ob,
           finalbody=st.finalbody), st))
       return out, allt
+    if isinstance(st, (ast.For, ast.While)) and not st.orelse and not any(
+        isinstance(x, ast.Break) for x in _walk_same_loop(st.body)):
+      # `for ...: if c: return X` + rest  ->  `for ...: if c: ret = X; break`
+      # with the rest moved into the loop's else clause
+      body = _returns_to_breaks(st.body, ret)
+      r, rt = _elim_returns(rest, ret)
+      new = _fast_copy(st)
+      new.body = body
+      new.orelse = r
+      out.append(new)
+      return out, rt
     raise NotInlinable('return inside %s' % type(st).__name__)
   return out, False
+
+
+def _walk_same_loop(stmts):
+  """Statements of a loop body that belong to that loop (nested loops and
+  defs excluded)."""
+  stack = list(stmts)
+  while stack:
+    s = stack.pop()
+    yield s
+    if isinstance(s, (ast.For, ast.While, ast.FunctionDef, ast.AsyncFunctionDef,
+                      ast.ClassDef)):
+      if any(isinstance(x, ast.Return) for x in ast.walk(s)) and isinstance(
+          s, (ast.For, ast.While)):
+        raise NotInlinable('return inside a nested loop')
+      continue
+    for field in ('body', 'orelse', 'finalbody'):
+      b = getattr(s, field, None)
+      if isinstance(b, list):
+        stack.extend(x for x in b if isinstance(x, ast.stmt))
+    for h in getattr(s, 'handlers', None) or []:
+      stack.extend(h.body)
+
+
+def _returns_to_breaks(stmts, ret):
+  out = []
+  for st in stmts:
+    if isinstance(st, ast.Return):
+      if ret is not None:
+        val = st.value if st.value is not None else ast.Constant(value=None)
+        out.append(ast.copy_location(ast.Assign(
+            targets=[ast.Name(id=ret, ctx=ast.Store())], value=val), st))
+      elif st.value is not None and not isinstance(
+          st.value, (ast.Name, ast.Constant)):
+        out.append(ast.copy_location(ast.Expr(value=st.value), st))
+      out.append(ast.copy_location(ast.Break(), st))
+      return out  # the rest of this block is unreachable
+    if isinstance(st, (ast.For, ast.While, ast.FunctionDef,
+                       ast.AsyncFunctionDef, ast.ClassDef)) or \
+        not _contains_return(st):
+      out.append(st)
+      continue
+    new = _fast_copy(st)
+    for field in ('body', 'orelse', 'finalbody'):
+      b = getattr(new, field, None)
+      if isinstance(b, list) and b and isinstance(b[0], ast.stmt):
+        setattr(new, field, _returns_to_breaks(b, ret))
+    for h in getattr(new, 'handlers', None) or []:
+      h.body = _returns_to_breaks(h.body, ret)
+    out.append(new)
+  return out
 
 
 class _Subst(ast.NodeTransformer):
